@@ -231,7 +231,13 @@ def _scenario(s, clients, w, sim, r, run, stats, wit):
                 return [(0, data)]
             return [(i // chunk, data[i:i + chunk]) for i in range(0, len(data), chunk)]
         sim.enable_stream_relay(chunker)
-    sim.add_node(0)
+    # half of the clients let libcoap handle block-wise transfers: requests with an Observe
+    # option then have library state (lg_crcv) from the moment they are submitted
+    blockmode = r.random() < 0.5
+    if blockmode:
+        sim.add_node(0, block_mode=1)
+    else:
+        sim.add_node(0)
     sim.add_node(1)
     line = "psk 1 hint=%s key=%s" % (hx(s.hint), hx(s.key))
     if s.ids is not None:
@@ -330,6 +336,8 @@ def _scenario(s, clients, w, sim, r, run, stats, wit):
                 line += " payload=%s" % m["marker"].hex()
             else:
                 line += ",15=%s" % m["marker"].hex()     # Uri-Query carries the marker
+                if blockmode and m["type"] == 0 and m.get("observe"):
+                    line = line.replace("opts=11=72", "opts=6=,11=72")
             evs = sm.cmd(line)
             m["accepted"] = any(e["e"] == "sent" and e.get("mid", -1) != -1 for e in evs)
             m["t"] = sm.now
@@ -343,7 +351,8 @@ def _scenario(s, clients, w, sim, r, run, stats, wit):
             marker = b"SECRET-PAYLOAD-%d-%02d-%08x" % (j, i, r.getrandbits(32))
             msgs.append({"i": i, "type": r.choice([0, 0, 0, 1]), "code": r.choice([1, 2]),
                          "tok": bytes([0xC0 + i, j, r.getrandbits(8)]).hex(), "marker": marker,
-                         "when": r.choice([0, 0, 0, 1, 4, 9, 15, 40, 400])})
+                         "when": r.choice([0, 0, 0, 1, 4, 9, 15, 40, 400]),
+                         "observe": r.random() < 0.5})
             markers.append(marker)
         msgs.sort(key=lambda m: (m["when"], m["i"]))
         v, why = verdict(s, c)
